@@ -196,9 +196,21 @@ theorem o1_cases (cfg : Cfg) :
     unfold challenged o1
     rw [h]; rfl
   · right
-    refine ⟨?_, m, w1, c1, h, hg, hc⟩
+    refine ⟨?_, m, w1, c1, h, hg, hc.1⟩
     unfold challenged o1
     rw [h]; rfl
+
+/-- When the bus answers with a challenge, the user name was not empty and ASCII and the first step of the cookie
+mechanism produced that challenge. -/
+theorem challenged_step {cfg : Cfg} (h : challenged cfg = true) :
+    cfg.user ≠ [] ∧ AuthServer.isAscii cfg.user = true ∧
+    ∃ m w1 c1, AuthServer.cookieStep cfg.w0 AuthServer.CookieSt.init (some cfg.user) = (w1, c1, .challenge m) := by
+  rcases sv_auth_cookie (srv1 cfg) cfg.user rfl (by show 1 + 1 ≤ maxRejects; decide) with ⟨w', mm, h1, _⟩ | ⟨m, w1, c1, _, _, hc⟩
+  · exfalso
+    unfold challenged o1 at h
+    rw [h1] at h
+    cases h
+  · exact ⟨hc.2.1, hc.2.2.1, m, w1, c1, hc.2.2.2⟩
 
 theorem chalLine_eq {cfg : Cfg} {m w1 c1} (h : O1Challenge cfg m w1 c1) :
     chalLine cfg = wData ++ AuthServer.hexlify m := by
